@@ -407,6 +407,8 @@ def t_list(I, args, kw, node):
         arr = z3.Array(I.ctx.fresh_name("lst"), z3.IntSort(), z3.IntSort())
         j = z3.Int(I.ctx.fresh_name("j"))
         I.ctx.assume(z3.ForAll([j], z3.Implies(z3.And(j >= 0, j < v.n), z3.Select(arr, j) == v.at(j))))
+        if v.elem_range:
+            I.ctx.assume(z3.ForAll([j], z3.And(z3.Select(arr, j) >= v.elem_range[0], z3.Select(arr, j) < v.elem_range[1])))
         return SList(arr, v.n, v.elem_range)
     if isinstance(v, SList):
         return SList(v.arr, v.n, v.elem_range)
